@@ -446,4 +446,48 @@ Section Ops.
       + intros x Hx. destruct Hc as [Hc|Hc]; rewrite Hc in Hx; [left; exact Hx|]. apply in_app_or in Hx. rewrite Hinc. exact Hx.
       + intros x Hx _. destruct Hc as [Hc|Hc]; rewrite Hc; [exact Hx|apply in_or_app; left; exact Hx].
   Qed.
+
+  (* the small operations *)
+  Lemma number_ne n ms : ms <> [] -> number n ms <> [].
+  Proof. destruct ms; [contradiction|discriminate]. Qed.
+
+  Definition with_hw (d : disk) (h : Z) : disk := mkDisk (d_segs d) (d_orph d) (d_scr d) h (d_ep d).
+
+  Lemma good_with_hw s h : Good s -> h <= s_hw s -> Good (mkSt (with_hw (s_disk s) h) (s_hw s)).
+  Proof.
+    intros G Hh. split; cbn [s_disk s_hw with_hw d_segs d_orph d_ep d_hw]; try apply G. exact Hh.
+  Qed.
+
+  Lemma checkpoint_seq s o keep : Good s ->
+    seq (Image s o keep) (fun d => d = s_disk s) [FHw (s_hw s)] (fun d => d = with_hw (s_disk s) (s_hw s)).
+  Proof.
+    intros G. apply seq_one; [intros d ->; apply good_image; exact G|intros d ->; reflexivity|].
+    intros d ->. pose proof (good_with_hw s (s_hw s) G ltac:(lia)) as G'.
+    pose proof (good_image _ o keep G') as (A & B & C). split; [exact A|split; [exact B|exact C]].
+  Qed.
+
+  Lemma epoch_seq s o keep e : Good s ->
+    let c := d_ep (s_disk s) in
+    seq (Image s o keep) (fun d => d = s_disk s)
+        (if (cache_latest_epoch c <? e)%N && (cache_latest_off c <=? next_of s) then [FEpochs (cache_assign c e (next_of s))] else [])
+        (fun d => d = with_ep (s_disk s) (cache_assign c e (next_of s)) /\ Good (mkSt d (s_hw s))).
+  Proof.
+    intros G c.
+    destruct (good_active s G) as (pre & a & E & Ha & Hidx & Hnx & H0 & Hpre & Hbelow).
+    assert (G' : Good (mkSt (with_ep (s_disk s) (cache_assign c e (next_of s))) (s_hw s))).
+    { split; cbn [s_disk s_hw with_ep d_segs d_orph d_ep d_hw]; try apply G.
+      - apply assign_sorted. apply (g_csorted _ G).
+      - change (d_active (with_ep (s_disk s) (cache_assign c e (next_of s)))) with (d_active (s_disk s)). fold (next_of s).
+        intros e' s' Hin. rewrite assign_spec in Hin. destruct ((cache_latest_epoch c <? e)%N && (cache_latest_off c <=? next_of s)).
+        + apply in_app_or in Hin. destruct Hin as [Hin|[[= <- <-]|[]]]; [apply (g_cbound _ G e' s' Hin)|lia].
+        + apply (g_cbound _ G e' s' Hin).
+      - change (content (with_ep (s_disk s) (cache_assign c e (next_of s)))) with (content (s_disk s)).
+        apply (assign_keeps_old c e (next_of s) (content (s_disk s)) (next_of s)); [apply (g_cmatch _ G)|rewrite Hnx; exact Hbelow|lia]. }
+    destruct ((cache_latest_epoch c <? e)%N && (cache_latest_off c <=? next_of s)) eqn:Ec.
+    - apply seq_one; [intros d ->; apply good_image; exact G|intros d ->; split; [reflexivity|exact G']|].
+      intros d [-> _]. pose proof (good_image _ o keep G') as (A & B & C). split; [exact A|split; [exact B|exact C]].
+    - apply (seq_conseq (Image s o keep) (fun d => d = s_disk s) _ (fun d => d = s_disk s) _); [auto| |apply seq_nil; intros d ->; apply good_image; exact G].
+      intros d ->. assert (En : cache_assign c e (next_of s) = c) by (rewrite assign_spec, Ec; reflexivity).
+      rewrite En in *. unfold c. rewrite with_ep_same in *. split; [reflexivity|destruct s; exact G].
+  Qed.
 End Ops.
